@@ -14,7 +14,7 @@ import (
 
 func c01Opts(ctx *Ctx) gen.EvOpts {
 	o := gen.EvOpts{Comments: true, Padding: true, CustomBinary: true, Media: true, Markers: true, Records: true, RemoteRef: true,
-		FullUnicode: true, Chunked: true, WideBigFloat: true, MaxDepth: 4, MaxArr: 60, Budget: 30}
+		FullUnicode: true, Chunked: true, MidCharSplit: true, WideBigFloat: true, MaxDepth: 4, MaxArr: 60, Budget: 30}
 	if ctx.Thorough() {
 		o.MaxArr, o.Budget, o.MaxDepth = 2000, 150, 6
 	}
